@@ -295,6 +295,7 @@ INLINE_NOT_DRIVEN = [
 # (injected by vlib.build_overlay), called from the generated TestVerifC24 of their package
 E2E_DRIVERS = [
     ("internal/protocols/mpegts", "vC24FromStream(t, out, r, n)"),
+    ("internal/recorder", "vC24RecorderTS(t, out, r, n)"),
 ]
 
 
